@@ -47,13 +47,16 @@ def run_entry(e, tier='quick'):
 
 def run(prop=None, tier='quick'):
     from selftest.entries import entries
-    res = []
-    for e in entries():
-        if prop and e['prop'] != prop:
-            continue
-        r = run_entry(e, tier)
+    todo = [e for e in entries() if not prop or e['prop'] == prop]
+    jobs = int(os.environ.get('SELFTEST_JOBS', '1'))        # entries are independent (own scratch copy, own output directory)
+    if jobs > 1:
+        from concurrent.futures import ThreadPoolExecutor
+        with ThreadPoolExecutor(jobs) as ex:
+            res = list(ex.map(lambda e: run_entry(e, tier), todo))
+    else:
+        res = [run_entry(e, tier) for e in todo]
+    for e, r in zip(todo, res):
         r['ok'] = r['got'] == e['expect'] or r['got'] == 'not-applicable' or (e['expect'] == 'no-alarm' and r['got'] in ('held', 'undecided'))
-        res.append(r)
     return res
 
 
